@@ -25,11 +25,36 @@ SOFTWARE.
 
 package mapset
 
-import "sync"
+import (
+	"sync"
+	"unsafe"
+)
 
 type threadSafeSet struct {
 	s threadUnsafeSet
 	sync.RWMutex
+}
+
+// rlockBoth read-locks both operands of a binary operation: once when they are
+// the same set, otherwise in address order, so that concurrent binary operations
+// (with queued writers) cannot wait on each other in a cycle.
+func rlockBoth(a, b *threadSafeSet) {
+	if a == b {
+		a.RLock()
+		return
+	}
+	if uintptr(unsafe.Pointer(a)) > uintptr(unsafe.Pointer(b)) {
+		a, b = b, a
+	}
+	a.RLock()
+	b.RLock()
+}
+
+func runlockBoth(a, b *threadSafeSet) {
+	a.RUnlock()
+	if a != b {
+		b.RUnlock()
+	}
 }
 
 func newThreadSafeSet() threadSafeSet {
@@ -53,12 +78,10 @@ func (set *threadSafeSet) Contains(i ...any) bool {
 func (set *threadSafeSet) IsSubset(other Set) bool {
 	o := other.(*threadSafeSet)
 
-	set.RLock()
-	o.RLock()
+	rlockBoth(set, o)
 
 	ret := set.s.IsSubset(&o.s)
-	set.RUnlock()
-	o.RUnlock()
+	runlockBoth(set, o)
 	return ret
 }
 
@@ -69,52 +92,44 @@ func (set *threadSafeSet) IsSuperset(other Set) bool {
 func (set *threadSafeSet) Union(other Set) Set {
 	o := other.(*threadSafeSet)
 
-	set.RLock()
-	o.RLock()
+	rlockBoth(set, o)
 
 	unsafeUnion := set.s.Union(&o.s).(*threadUnsafeSet)
 	ret := &threadSafeSet{s: *unsafeUnion}
-	set.RUnlock()
-	o.RUnlock()
+	runlockBoth(set, o)
 	return ret
 }
 
 func (set *threadSafeSet) Intersect(other Set) Set {
 	o := other.(*threadSafeSet)
 
-	set.RLock()
-	o.RLock()
+	rlockBoth(set, o)
 
 	unsafeIntersection := set.s.Intersect(&o.s).(*threadUnsafeSet)
 	ret := &threadSafeSet{s: *unsafeIntersection}
-	set.RUnlock()
-	o.RUnlock()
+	runlockBoth(set, o)
 	return ret
 }
 
 func (set *threadSafeSet) Difference(other Set) Set {
 	o := other.(*threadSafeSet)
 
-	set.RLock()
-	o.RLock()
+	rlockBoth(set, o)
 
 	unsafeDifference := set.s.Difference(&o.s).(*threadUnsafeSet)
 	ret := &threadSafeSet{s: *unsafeDifference}
-	set.RUnlock()
-	o.RUnlock()
+	runlockBoth(set, o)
 	return ret
 }
 
 func (set *threadSafeSet) SymmetricDifference(other Set) Set {
 	o := other.(*threadSafeSet)
 
-	set.RLock()
-	o.RLock()
+	rlockBoth(set, o)
 
 	unsafeDifference := set.s.SymmetricDifference(&o.s).(*threadUnsafeSet)
 	ret := &threadSafeSet{s: *unsafeDifference}
-	set.RUnlock()
-	o.RUnlock()
+	runlockBoth(set, o)
 	return ret
 }
 
@@ -154,12 +169,10 @@ func (set *threadSafeSet) Iter() <-chan any {
 func (set *threadSafeSet) Equal(other Set) bool {
 	o := other.(*threadSafeSet)
 
-	set.RLock()
-	o.RLock()
+	rlockBoth(set, o)
 
 	ret := set.s.Equal(&o.s)
-	set.RUnlock()
-	o.RUnlock()
+	runlockBoth(set, o)
 	return ret
 }
 
@@ -189,13 +202,11 @@ func (set *threadSafeSet) PowerSet() Set {
 func (set *threadSafeSet) CartesianProduct(other Set) Set {
 	o := other.(*threadSafeSet)
 
-	set.RLock()
-	o.RLock()
+	rlockBoth(set, o)
 
 	unsafeCartProduct := set.s.CartesianProduct(&o.s).(*threadUnsafeSet)
 	ret := &threadSafeSet{s: *unsafeCartProduct}
-	set.RUnlock()
-	o.RUnlock()
+	runlockBoth(set, o)
 	return ret
 }
 
